@@ -104,32 +104,63 @@ def check(ctx) -> Result:
                 okr = True
         res.add(okr, "H2-blocked-range-complete", f"compress_mode_swaps:{kind}", cms.site(node) if node is not None else cms.site(), cms.qualname, f"blocks range({want[0]}, {want[1]}): every mode of the component",
                 f"the modes blocked for a {kind} are {got}, not range({want[0]}, {want[1]}): its last mode is left free, so a swap touching it is commuted across the component", construct=str(got))
-    # swap meeting a blocked mode blocks all its modes, else combined
-    sw = None
-    for n in walk_no_nested(cms.node):
-        if isinstance(n, ast.For) and src(n.iter) == "swaps" and n.orelse:
-            sw = n
+    # swap meeting a blocked mode blocks all its modes, else combined.  Recognised forms of the decision:
+    #   for m in S: if m in blocked: <block all>; break   else: <combine>
+    #   if any(m in blocked for m in S): <block all>  else: <combine>      (also set intersection / isdisjoint)
+    from ..inline import inlined
+    cmsi = inlined(cms.node)
+    S = "spec2.swaps"
+    conflict = noconf = sw = None
+    for n in walk_no_nested(cmsi):
+        if isinstance(n, ast.For) and src(n.iter) in (S, f"{S}.keys()", f"list({S})") and n.orelse and isinstance(n.target, ast.Name):
+            tst = [i for i in n.body if isinstance(i, ast.If)]
+            if tst and src(tst[0].test).replace(" ", "") == f"{n.target.id}inblocked_modes" and any(isinstance(b, ast.Break) for b in tst[0].body):
+                sw, conflict, noconf = n, tst[0].body, n.orelse
+        if isinstance(n, ast.If) and n.orelse:
+            t = src(n.test).replace(" ", "")
+            forms_pos = (f"any(minblocked_modesformin{S})", f"blocked_modes&set({S})", f"blocked_modes.intersection({S})", f"notblocked_modes.isdisjoint({S})", f"blocked_modes&{S}.keys()")
+            forms_neg = (f"blocked_modes.isdisjoint({S})", f"notany(minblocked_modesformin{S})", f"all(mnotinblocked_modesformin{S})", f"not(blocked_modes&set({S}))", f"notblocked_modes&set({S})")
+            import re as _re
+            tn = _re.sub(r"\b(\w+)(?=inblocked_modesfor\1in|notinblocked_modesfor\1in)", "m", t)
+            tn = _re.sub(r"for\w+in" + _re.escape(S), "formin" + S, tn)
+            if tn in forms_pos:
+                sw, conflict, noconf = n, n.body, n.orelse
+            elif tn in forms_neg:
+                sw, conflict, noconf = n, n.orelse, n.body
     if sw is None:
-        raise AnalysisError("compress_mode_swaps: swap inspection loop (for/else) not found")
-    tst = [i for i in sw.body if isinstance(i, ast.If)]
-    okb = bool(tst) and src(tst[0].test).replace(" ", "") in ("minblocked_modes",) and any(isinstance(b, ast.Break) for b in tst[0].body) and any(isinstance(b, ast.For) and "blocked_modes.add" in src(b) and src(b.iter) == "swaps" for b in tst[0].body)
-    res.frozen(okb, "R-blocked-swap-blocks-all", "compress_mode_swaps", cms.site(sw), cms.qualname, "a later swap that touches a blocked mode blocks all of its modes and is not merged", "a swap touching a blocked mode is merged anyway or does not block its other modes", construct=src(sw)[:200])
-    keys_only = isinstance(sw.iter, ast.Name)
-    sd = [a for a in walk_no_nested(cms.node) if isinstance(a, ast.Assign) and src(a.targets[0]) == "swaps"]
-    res.frozen(bool(sd) and src(sd[0].value) == "spec2.swaps", "R-blocked-swap-blocks-all", "compress_mode_swaps:swaps", cms.site(), cms.qualname, "inspects the later swap's own dictionary", "inspected dictionary is not the later swap's", construct=src(sd[0]) if sd else "")
-    comb = [c for c in ast.walk(sw) if isinstance(c, ast.Call) and src(c.func) == "combine_mode_swap_dicts"]
-    okc = len(comb) == 1 and [src(a) for a in comb[0].args] == ["spec.swaps", "swaps"] and all(c in [x for o in sw.orelse for x in ast.walk(o)] for c in comb)
-    res.frozen(okc, "R-compose-earlier-then-later", "compress_mode_swaps", cms.site(sw), cms.qualname, "combine(earlier swap, later swap) in the no-conflict branch only", "swap dictionaries are combined in the wrong order or outside the no-conflict branch", construct=src(comb[0]) if comb else "")
-    skips = [c for o in sw.orelse for c in ast.walk(o) if isinstance(c, ast.Call) and src(c.func) == "to_skip.append"]
-    res.frozen(len(skips) == 1 and src(skips[0].args[0]).replace(" ", "") in ("i+1+j", "i+j+1", "j+i+1", "1+i+j"), "R-merged-swap-skipped", "compress_mode_swaps", cms.site(sw), cms.qualname, "the merged later swap (index i+1+j) is skipped", "the merged swap is not skipped (applied twice) or the wrong component is skipped", construct=src(skips[0]) if skips else "")
+        res.frozen(False, "R-blocked-swap-blocks-all", "compress_mode_swaps", cms.site(), cms.qualname, "", "decision `does the later swap touch a blocked mode` not recognised", construct="")
+        skips = [c for c in ast.walk(cmsi) if isinstance(c, ast.Call) and src(c.func) == "to_skip.append"]
+    else:
+        cw = [x for b in conflict for x in ast.walk(b)]
+        nw = [x for b in noconf for x in ast.walk(b)]
+        blocks_all = any((isinstance(x, ast.For) and src(x.iter) in (S, f"{S}.keys()") and "blocked_modes.add" in src(x)) or (isinstance(x, ast.Call) and src(x.func) == "blocked_modes.update" and x.args and src(x.args[0]) in (S, f"{S}.keys()", f"set({S})"))
+                         or (isinstance(x, ast.AugAssign) and src(x.target) == "blocked_modes" and isinstance(x.op, ast.BitOr) and S in src(x.value)) for x in cw)
+        merged_in_conflict = any(isinstance(x, ast.Call) and src(x.func) == "combine_mode_swap_dicts" for x in cw)
+        if merged_in_conflict:
+            res.bad("R-blocked-swap-blocks-all", "compress_mode_swaps", cms.site(sw), cms.qualname, "a swap touching a blocked mode is merged anyway", construct=src(sw)[:200])
+        else:
+            res.frozen(blocks_all, "R-blocked-swap-blocks-all", "compress_mode_swaps", cms.site(sw), cms.qualname, "a later swap that touches a blocked mode blocks all of its modes and is not merged", "blocking of all modes of a conflicting swap not recognised", construct=src(sw)[:200])
+        comb = [c for c in ast.walk(cmsi) if isinstance(c, ast.Call) and src(c.func) == "combine_mode_swap_dicts"]
+        if len(comb) == 1 and comb[0] in nw and len(comb[0].args) == 2:
+            args = [src(a_) for a_ in comb[0].args]
+            if args == ["spec.swaps", S]:
+                res.ok("R-compose-earlier-then-later", "compress_mode_swaps", cms.site(sw), cms.qualname, "combine(earlier swap, later swap) in the no-conflict branch only")
+            elif args == [S, "spec.swaps"]:
+                res.bad("R-compose-earlier-then-later", "compress_mode_swaps", cms.site(comb[0]), cms.qualname, "swap dictionaries are combined in the wrong order (later, earlier)", construct=src(comb[0]))
+            else:
+                res.frozen(False, "R-compose-earlier-then-later", "compress_mode_swaps", cms.site(comb[0]), cms.qualname, "", f"arguments of combine_mode_swap_dicts not recognised: {args}", construct=src(comb[0]))
+        else:
+            res.frozen(False, "R-compose-earlier-then-later", "compress_mode_swaps", cms.site(sw), cms.qualname, "", "single combine call in the no-conflict branch not recognised", construct="")
+        skips = [c for c in nw if isinstance(c, ast.Call) and src(c.func) == "to_skip.append"]
+        res.frozen(len(skips) == 1 and src(skips[0].args[0]).replace(" ", "") in ("i+1+j", "i+j+1", "j+i+1", "1+i+j"), "R-merged-swap-skipped", "compress_mode_swaps", cms.site(sw), cms.qualname, "the merged later swap (index i+1+j) is skipped", "the merged swap is not skipped (applied twice) or the wrong component is skipped", construct=src(skips[0]) if skips else "")
     # consume-once: an index put into to_skip (its swap was merged into an earlier one) must be excluded from every
     # later scan that can merge again - the outer loop and the inner look-ahead
     if skips:
         consumed = src(skips[0].args[0]).replace(" ", "")
-        par = ctx.tree.parents(cms.rel)
+        par = {c_: n_ for n_ in ast.walk(cmsi) for c_ in ast.iter_child_nodes(n_)}
         chain = []
         p_ = skips[0]
-        while p_ is not None and p_ is not cms.node:
+        while p_ is not None and p_ is not cmsi:
             p_ = par.get(p_)
             if isinstance(p_, ast.For) and "circuit_spec" in src(p_.iter):
                 chain.append(p_)
@@ -143,24 +174,32 @@ def check(ctx) -> Result:
                     construct=src(lp.iter))
     encl = [l for l in walk_no_nested(cms.node) if isinstance(l, ast.For) and "enumerate(circuit_spec[i + 1:])" in src(l.iter).replace("[i + 1 :]", "[i + 1:]")]
     res.frozen(bool(encl), "R-merged-swap-skipped", "compress_mode_swaps:scan", cms.site(), cms.qualname, "later components are scanned from position i+1", "scan of later components does not start right after the swap", construct="scan")
-    # M5: at most one append per input component, none inside the inner scan
+    # M5: at most one append per input component on every path through one iteration of the outer loop
+    from ..cfg import CFG, forward
     outer = [l for l in cms.node.body if isinstance(l, ast.For)]
     apps = _appends(cms.node, "new_spec")
-    par = ctx.tree.parents(cms.rel)
-    def loop_depth(n):
-        d = 0
-        p = par.get(n)
-        while p is not None and p is not cms.node:
-            if isinstance(p, ast.For):
-                d += 1
-            p = par.get(p)
-        return d
-    branches_ok = all(loop_depth(a) == 1 for a in apps)
-    # per path: the if/else of the outer body each contain exactly one append
-    ob = outer[0].body if outer else []
-    top_if = [s for s in ob if isinstance(s, ast.If) and any(a in list(ast.walk(s)) for a in apps)]
-    per_path = bool(top_if) and len(_appends(ast.Module(body=top_if[0].body, type_ignores=[]), "new_spec")) == 1 and len(_appends(ast.Module(body=top_if[0].orelse, type_ignores=[]), "new_spec")) == 1 and len(apps) == 2
-    res.add(branches_ok and per_path, "M5-no-growth", "compress_mode_swaps", cms.site(), cms.qualname, "exactly one component is appended per non-skipped input component", "more than one component can be appended per input component (the number of components may grow)", construct=f"{len(apps)} appends")
+    if not outer or not apps:
+        res.frozen(False, "M5-no-growth", "compress_mode_swaps", cms.site(), cms.qualname, "", "outer loop / appends to new_spec not recognised", construct="")
+    else:
+        cfgc = ctx.cfg(cms)
+        hdr = [n for n in cfgc.nodes if n.kind == "for" and n.ast is outer[0]]
+        appset = {id(a_) for a_ in apps}
+        def tr(n, st, lab):
+            if hdr and n.id == hdr[0].id:
+                return 0 if lab == "true" else st
+            if n.kind == "stmt" and n.ast is not None and any(id(x) in appset for x in ast.walk(n.ast)):
+                return min(st + 1, 2)
+            return st
+        IN = forward(cfgc, 0, tr, max, edge_filter=lambda n, t, lab: lab not in ("exc", "raise"))
+        # value flowing back into the header = appends made during one iteration
+        back = 0
+        if hdr:
+            for pid, lab in hdr[0].pred:
+                if IN.get(pid) is not None and pid != cfgc.entry.id:
+                    v = tr(cfgc.nodes[pid], IN[pid], lab)
+                    if cfgc.nodes[pid].lineno >= outer[0].lineno:
+                        back = max(back, v)
+        res.add(bool(hdr) and back <= 1, "M5-no-growth", "compress_mode_swaps", cms.site(), cms.qualname, "at most one component is appended per input component on every path", "more than one component can be appended per input component (the number of components may grow)", construct=f"{len(apps)} appends, max {back} per iteration")
     # ---- combine_mode_swap_dicts
     cmb = ctx.func(UTILS, "combine_mode_swap_dicts")
     good = False
